@@ -1,2 +1,226 @@
-(** C19 placeholder, replaced below *)
-From Elfi Require Import Num.Box.
+(** C19 — ROMC regions: samples lie inside, density 1/volume inside and 0 outside, line search,
+    posterior counts, sample weights.
+    Models: Num/BoxMx.v (matrices over a field, any dimension) and Num/Box.v (executable, over Q).
+    This file only states the property theorems; proofs are in Proofs/C19_BoxMx.v and Proofs/C19_Box.v.
+    NOT claimed: "the density integrates to one" (needs measure theory: Lebesgue measure of the image of a
+    box under an affine map, |det R| = 1).                                                              *)
+From mathcomp Require all_ssreflect all_algebra.
+From Elfi Require Num.BoxMx Proofs.C19_BoxMx Num.Box Proofs.C19_Box.
+
+(** ------------------------------------------------------------------------------------------
+    Part 1 (mathcomp): the two changes of frame are inverse to each other, for every dimension [n],
+    every field, every invertible rotation (orthonormal or not), every centre. *)
+Module Mx.
+Import mathcomp.ssreflect.all_ssreflect mathcomp.algebra.all_algebra.
+Import GRing.Theory Num.Theory.
+Import Elfi.Num.BoxMx Elfi.Proofs.C19_BoxMx.
+Local Open Scope ring_scope.
+
+(** [contains]' frame change undoes [sample]'s frame change *)
+Theorem C19_to_box_from_box :
+  forall (F : fieldType) (n : nat) (R : 'M[F]_n) (c th : 'cV[F]_n),
+    R \in unitmx -> to_box R c (from_box R c th) = th.
+Proof. exact to_box_from_box. Qed.
+Print Assumptions C19_to_box_from_box.
+
+(** every point [sample] produces (box-frame coordinate i = lo_i + (hi_i - lo_i) u_i with a draw
+    0 <= u_i <= 1, then rotated and shifted) is contained in the region *)
+Theorem C19_sample_contained :
+  forall (F : realFieldType) (n : nat) (R : 'M[F]_n) (c lo hi u : 'cV[F]_n),
+    R \in unitmx -> (forall i, lo i 0 <= hi i 0) -> (forall i, 0 <= u i 0 <= 1) ->
+    contains R c lo hi (sample_point R c lo hi u).
+Proof. exact sample_contained. Qed.
+Print Assumptions C19_sample_contained.
+
+(** the region is exactly the image of the limits box: nothing else is contained *)
+Theorem C19_contained_has_coords :
+  forall (F : realFieldType) (n : nat) (R : 'M[F]_n) (c lo hi p : 'cV[F]_n),
+    R \in unitmx -> contains R c lo hi p -> exists2 th, within lo hi th & p = from_box R c th.
+Proof. exact contained_has_coords. Qed.
+Print Assumptions C19_contained_has_coords.
+
+(** non-vacuity of the invertibility hypothesis in every dimension (concrete rotated boxes with their
+    validated inverses are in Part 2's Examples) *)
+Example C19_unit_example : forall n : nat, (1%:M : 'M[rat]_n) \in unitmx.
+Proof. by move=> n; apply: unitmx1. Qed.
+End Mx.
+
+(** ------------------------------------------------------------------------------------------
+    Part 2 (stdlib, executable model over Q). *)
+From Coq Require Import ZArith QArith List Bool Arith.
+Import ListNotations.
+Import Elfi.Num.Box Elfi.Proofs.C19_Box.
+Open Scope Q_scope.
+
+(** the early-exit loop of [contains] decides exactly [forall i, lo_i <= q_i <= hi_i] *)
+Theorem C19_contains_loop :
+  forall p l, length p = length l ->
+    (inside_loop p l = Some true <->
+     forall i, (i < length p)%nat -> fst (nth i l (0, 0)) <= nth i p 0 /\ nth i p 0 <= snd (nth i l (0, 0))).
+Proof. exact contains_loop_forall. Qed.
+Print Assumptions C19_contains_loop.
+
+Theorem C19_contains_spec :
+  forall b p, wf_box b -> length p = b_dim b ->
+    contains b p = Some (within (to_box (b_rotinv b) (b_center b) p) (b_lims b)).
+Proof. exact contains_spec. Qed.
+Print Assumptions C19_contains_spec.
+
+(** after [_secure_limits] every dimension has lo < hi (degenerate ones were widened), lengths kept *)
+Theorem C19_secure_limits_proper :
+  forall l l', secure_limits l = Some l' -> proper_lims l' /\ length l' = length l.
+Proof. exact secure_limits_proper. Qed.
+Print Assumptions C19_secure_limits_proper.
+
+(** limits only move outwards *)
+Theorem C19_secure_limits_widen :
+  forall l l', secure_limits l = Some l' ->
+    Forall2 (fun x y : Q * Q => fst y <= fst x /\ snd x <= snd y /\ fst x <= 0 /\ 0 <= snd x) l l'.
+Proof. exact secure_limits_widen. Qed.
+Print Assumptions C19_secure_limits_widen.
+
+(** a constructed box has proper limits, a positive volume equal to the product of its side lengths,
+    and an inverse that really is the inverse *)
+Theorem C19_box_volume_pos :
+  forall R Rinv c l b, mk_box R Rinv c l = Some b ->
+    proper_lims (b_lims b) /\ 0 < b_vol b /\ b_vol b = volume (b_lims b) /\
+    b_dim b = length R /\ length (b_rotinv b) = b_dim b /\ length (b_lims b) = length l /\
+    is_inverse (b_dim b) (b_rotinv b) (b_rot b) = true.
+Proof. exact mk_box_sound. Qed.
+Print Assumptions C19_box_volume_pos.
+
+(** density: 1/volume (positive) inside, 0 outside *)
+Theorem C19_pdf_inside :
+  forall R Rinv c l b p, mk_box R Rinv c l = Some b -> contains b p = Some true ->
+    exists d, pdf b p = Some d /\ 0 < d /\ d * b_vol b == 1.
+Proof. exact pdf_inside_pos. Qed.
+Print Assumptions C19_pdf_inside.
+
+Theorem C19_pdf_outside : forall b p, contains b p = Some false -> pdf b p = Some 0.
+Proof. exact pdf_outside. Qed.
+Print Assumptions C19_pdf_outside.
+
+(** the box-frame coordinates [sample] draws are within the secured limits *)
+Theorem C19_box_coords_within :
+  forall l u, proper_lims l -> length u = length l ->
+    Forall (fun x => 0 <= x /\ x <= 1) u -> within (box_coords l u) l = true.
+Proof. exact box_coords_within. Qed.
+Print Assumptions C19_box_coords_within.
+
+(** line search, for every objective oracle, threshold, K, positive step and repetition limit:
+    started below the threshold it returns a positive offset; every probed offset strictly below the
+    result had the objective below the threshold, and also every probed offset equal to the result
+    when rep_lim >= 1 (with rep_lim = 0 the returned fall-back step may itself have been probed
+    above the threshold: see the Example below). *)
+Theorem C19_line_search :
+  forall (f : Q -> Q) (eps : Q), (forall x y, x == y -> f x == f y) ->
+  forall K eta rep_lim res log,
+    f 0 < eps -> 0 < eta ->
+    line_search f eps K eta rep_lim = (res, log) ->
+    0 < res /\
+    (forall p, In p log -> p < res -> f p < eps) /\
+    ((1 <= rep_lim)%nat -> forall p, In p log -> p <= res -> f p < eps).
+Proof. exact line_search_spec. Qed.
+Print Assumptions C19_line_search.
+
+(** un-normalised posterior = prior * #{i : d_i <= eps [and region_i contains theta]} *)
+Theorem C19_pdf_unnorm :
+  forall surrogate bs th ds eps pr v n called,
+    Forall wf_box bs -> Forall (fun b => length th = b_dim b) bs -> length bs = length ds ->
+    pdf_unnorm surrogate bs th ds eps pr = Some (v, n, called) ->
+    n = spec_count surrogate bs th ds eps /\ v == pr * inject_Z (Z.of_nat n).
+Proof. exact pdf_unnorm_spec. Qed.
+Print Assumptions C19_pdf_unnorm.
+
+(** with surrogates, exactly the objectives of the regions containing the point are evaluated *)
+Theorem C19_objectives_called :
+  forall cs ds eps i, length cs = length ds ->
+    snd (sum_over_regions_indicators i cs ds eps)
+    = map fst (filter (fun ic : nat * bool => snd ic) (combine (seq i (length cs)) cs)).
+Proof. exact sum_over_regions_indicators_calls. Qed.
+Print Assumptions C19_objectives_called.
+
+(** weight = [dist < eps] * prior / region density; for a contained sample = [dist < eps] * prior * volume *)
+Theorem C19_weight :
+  forall q pr dist eps, 0 < q -> weight q pr dist eps == (if Qltb dist eps then 1 else 0) * pr / q.
+Proof. exact weight_spec. Qed.
+Print Assumptions C19_weight.
+
+Theorem C19_weight_of_contained :
+  forall R Rinv c l b p pr dist eps,
+    mk_box R Rinv c l = Some b -> contains b p = Some true ->
+    exists q, pdf b p = Some q /\ 0 < q /\
+      weight q pr dist eps == (if Qltb dist eps then 1 else 0) * pr * b_vol b.
+Proof. exact weight_of_contained. Qed.
+Print Assumptions C19_weight_of_contained.
+
+(** the decidable checks evaluated on the implementation's outputs are sound, and the model passes them *)
+Theorem C19_ok_sound_line :
+  forall c o0 v0 rest,
+    ok_ls c = true -> lc_impl_probes c = (o0, v0) :: rest ->
+    o0 == 0 -> v0 < lc_eps c -> 0 < lc_eta c ->
+    0 < lc_impl_res c /\
+    (forall p v, In (p, v) (lc_impl_probes c) -> p < lc_impl_res c -> v < lc_eps c) /\
+    ((1 <= lc_rep_lim c)%nat -> forall p v, In (p, v) (lc_impl_probes c) -> p <= lc_impl_res c -> v < lc_eps c).
+Proof. exact ok_ls_sound. Qed.
+Print Assumptions C19_ok_sound_line.
+
+Theorem C19_ok_sound_box :
+  forall c, ok_box c = true -> bc_impl_ok c = true ->
+    proper_lims (bc_impl_lims c) /\ 0 < bc_impl_vol c /\ Forall (fun o => so_contains o = true) (bc_smps c).
+Proof. exact ok_box_sound. Qed.
+Print Assumptions C19_ok_sound_box.
+
+Theorem C19_model_ok_line :
+  forall tbl dflt eps K eta rep_lim res log,
+    line_search (pw tbl dflt) eps K eta rep_lim = (res, log) ->
+    ok_ls {| lc_tbl := tbl; lc_dflt := dflt; lc_eps := eps; lc_K := K; lc_eta := eta; lc_rep_lim := rep_lim;
+             lc_impl_res := res; lc_impl_probes := map (fun p => (p, pw tbl dflt p)) log |} = true.
+Proof. exact model_ok_ls. Qed.
+Print Assumptions C19_model_ok_line.
+
+Theorem C19_model_ok_box :
+  forall R Rinv c l b, mk_box R Rinv c l = Some b ->
+    forallb (fun x : Q * Q => Qltb (fst x) (snd x)) (b_lims b) = true /\ Qltb 0 (b_vol b) = true /\
+    close (b_vol b) (volume (b_lims b)) = true.
+Proof. exact model_ok_box. Qed.
+Print Assumptions C19_model_ok_box.
+
+(** ---- non-vacuity ---- *)
+
+(** a rotated box with one degenerate dimension is constructed; its secured limits and volume *)
+Example C19_box_example :
+  option_map (fun b => (b_lims b, b_vol b))
+    (mk_box [[3 # 5; -4 # 5]; [4 # 5; 3 # 5]] (Some [[3 # 5; 4 # 5]; [-4 # 5; 3 # 5]]) [1; 2] [(-1, 2); (0, 0)])
+  = Some ([(-1, 2); (Qred (- eps_secure * (1 # 2)), Qred (eps_secure * (1 # 2)))], Qred (3 * eps_secure)).
+Proof. vm_compute. reflexivity. Qed.
+
+(** a point drawn with u = (1/3, 1) (on the boundary) is contained; a point beyond the limit is not *)
+Example C19_sample_example :
+  match mk_box [[3 # 5; -4 # 5]; [4 # 5; 3 # 5]] (Some [[3 # 5; 4 # 5]; [-4 # 5; 3 # 5]]) [1; 2] [(-1, 2); (0, 0)] with
+  | Some b => (contains b (sample_point b [1 # 3; 1]), contains b (from_box (b_rot b) (b_center b) [3; 0]))
+  | None => (None, None)
+  end = (Some true, Some false).
+Proof. vm_compute. reflexivity. Qed.
+
+(** line search on a bump profile: below 1 on [0, 2.3), above on [2.3, 4), below again after 4.
+    K = 3, eta = 1, rep_lim = 5: probes 0,1,2,3 | 2,2.5 | 2,2.25,2.5 ; result 2.25 *)
+Example C19_line_example :
+  line_search (pw [(23 # 10, 0); (4, 2)] 0) 1 3 1 5 = (9 # 4, [0; 1; 2; 3; 2; 5 # 2; 2; 9 # 4; 5 # 2]).
+Proof. vm_compute. reflexivity. Qed.
+
+(** rep_lim = 0: the fall-back result eta = 1 was itself probed above the threshold (hence the strict
+    clause of C19_line_search cannot be made non-strict without rep_lim >= 1) *)
+Example C19_line_rep_lim_0 :
+  line_search (pw [(1 # 2, 0)] 5) 1 3 1 0 = (1, [0; 1]) /\ ~ pw [(1 # 2, 0)] 5 1 < 1.
+Proof. split; [vm_compute; reflexivity | vm_compute; discriminate]. Qed.
+
+(** posterior count with surrogates: two regions, the point lies in the first only; both distances are
+    within the cut-off; only the first objective is evaluated; value = prior * 1 *)
+Example C19_post_example :
+  match mk_box [[1; 0]; [0; 1]] (Some [[1; 0]; [0; 1]]) [0; 0] [(-1, 1); (-1, 1)],
+        mk_box [[0; 1]; [1; 0]] (Some [[0; 1]; [1; 0]]) [5; 5] [(-1, 1); (-1, 1)] with
+  | Some b1, Some b2 => pdf_unnorm true [b1; b2] [1 # 2; 1] [1 # 4; 1 # 8] (1 # 4) (3 # 8)
+  | _, _ => None
+  end = Some (3 # 8, 1%nat, [0%nat]).
+Proof. vm_compute. reflexivity. Qed.
